@@ -461,6 +461,12 @@ func slowGenBankOriginParser(length int) pars.Parser {
 				}
 			}
 
+			// Only blanks may follow the residues the LOCUS line accounts for.
+			if len(bytes.TrimRight(q[extent:], " \t\r")) != 0 {
+				pos.Byte += extent
+				return pars.NewError("expected end of line", pos)
+			}
+
 			offset += copy(p[offset:], q[:extent])
 			p[offset] = '\n'
 			offset++
